@@ -192,8 +192,23 @@ where
     }
 }
 
+/// StripedScores accessors after resize(rows, max_index): is_empty is "no rows", max_index is the value given (not clamped)
+fn scores_accessors(rec: &mut Recorder, rng: &mut impl Rng, n: usize) {
+    let mut sc = lightmotif::scores::StripedScores::<f32, U32>::empty();
+    for it in 0..n {
+        let rows = if it % 5 == 0 { 0 } else { rng.gen_range(0..6) };
+        let mi = match it % 4 { 0 => 0, 1 => rows * 32, 2 => rows * 32 + rng.gen_range(1..50), _ => rng.gen_range(0..=rows * 32) };
+        let res = guarded(|| {
+            sc.resize(rows, mi);
+            json!({"is_empty": sc.is_empty(), "max_index": sc.max_index(), "default_empty": lightmotif::scores::StripedScores::<u8, U32>::default().is_empty()})
+        });
+        emit(rec, "scores_accessors", res, json!({"ev":"scores_accessors","r":rows,"mi":mi}));
+    }
+}
+
 pub fn record(rec: &mut Recorder, seed: u64, thorough: bool) {
     let mut r = rng(seed, 99);
+    scores_accessors(rec, &mut rng(seed, 98), if thorough { 120 } else { 40 });
     alphabet::<Dna>(rec, Some(Dna::symbols().iter().map(|&s| <Dna as ComplementableAlphabet>::complement(s).as_index()).collect()));
     alphabet::<Protein>(rec, None);
     {
